@@ -1759,6 +1759,36 @@ func genMain(repo string) *leanFile {
 	sv := find("s.Serve")
 	l.Bool("serveRunsBuildTasks", sv != nil && strings.HasPrefix(arg(sv, 2), "s.BuildTasks(*cfg"), "main: s.Serve(sigC, n, s.BuildTasks(*cfg, h))")
 	l.Bool("signalsFromSignals", arg(find("signal.Notify"), 1) == "corerad.Signals()", "main: signal.Notify(sigC, corerad.Signals()...)")
+	// the signal channel handed to signal.Notify is buffered (package signal does not block
+	// sending: an unbuffered channel loses a signal that arrives while nobody receives) and is
+	// the one Serve reads
+	{
+		capacity, chVar := int64(-1), ""
+		ast.Inspect(fd.Body, func(n ast.Node) bool {
+			as, ok := n.(*ast.AssignStmt)
+			if !ok || len(as.Lhs) != 1 || len(as.Rhs) != 1 {
+				return true
+			}
+			c, ok := as.Rhs[0].(*ast.CallExpr)
+			if !ok || exprString(c.Fun) != "make" || len(c.Args) == 0 {
+				return true
+			}
+			if ct, ok := c.Args[0].(*ast.ChanType); ok && exprString(ct.Value) == "os.Signal" {
+				chVar = exprString(as.Lhs[0])
+				capacity = 0
+				if len(c.Args) == 2 {
+					if bl, ok := c.Args[1].(*ast.BasicLit); ok {
+						if v, err := strconv.ParseInt(bl.Value, 0, 64); err == nil {
+							capacity = v
+						}
+					}
+				}
+			}
+			return true
+		})
+		l.Bool("signalChanBuffered", capacity >= 1 && chVar != "" && arg(find("signal.Notify"), 0) == chVar && arg(sv, 0) == chVar,
+			"main: sigC := make(chan os.Signal, n ≥ 1) is passed to signal.Notify and to s.Serve")
+	}
 	if fd := sf.fn("Signals"); fd != nil {
 		var sigs []string
 		ast.Inspect(fd.Body, func(n ast.Node) bool {
